@@ -4,13 +4,55 @@ import (
 	"github.com/z7zmey/php-parser/internal/scanner"
 	"github.com/z7zmey/php-parser/pkg/ast"
 	"github.com/z7zmey/php-parser/pkg/conf"
+	"github.com/z7zmey/php-parser/pkg/errors"
+	"github.com/z7zmey/php-parser/pkg/token"
 )
 
 type Parser struct {
-	lexer *scanner.Lexer
-	root  ast.Vertex
+	Lexer          *scanner.Lexer
+	currentToken   *token.Token
+	rootNode       ast.Vertex
+	errHandlerFunc func(*errors.Error)
 }
 
-func NewParser(lexer *scanner.Lexer, config conf.Config) *Parser { return &Parser{lexer: lexer} }
-func (p *Parser) Parse() int                                     { return 0 }
-func (p *Parser) GetRootNode() ast.Vertex                        { return p.root }
+func NewParser(lexer *scanner.Lexer, config conf.Config) *Parser {
+	return &Parser{Lexer: lexer, errHandlerFunc: config.ErrorHandlerFunc}
+}
+
+func (p *Parser) Error(msg string) {
+	if p.errHandlerFunc == nil {
+		return
+	}
+	p.errHandlerFunc(errors.NewError(msg, p.currentToken.Position))
+}
+
+// report: forwarding helper used by grammar actions
+func (p *Parser) report(e *errors.Error) {
+	if p.errHandlerFunc != nil {
+		p.errHandlerFunc(e)
+	}
+}
+
+func (p *Parser) Parse() int {
+	p.rootNode = nil
+	return (&yyParserImpl{}).Parse(p)
+}
+
+func (p *Parser) GetRootNode() ast.Vertex { return p.rootNode }
+
+type yyLexer interface{ Error(string) }
+
+type yyParserImpl struct{}
+
+func (*yyParserImpl) Parse(yylex yyLexer) int {
+	yynt := 1
+	var leaf *ast.Leaf
+	switch yynt {
+	case 1:
+		yylex.(*Parser).rootNode = &ast.Root{}
+	case 2:
+		leaf = &ast.Leaf{}
+		yylex.(*Parser).report(errors.NewError("Key element cannot be a reference", leaf.Position))
+	}
+	return 0
+}
